@@ -141,6 +141,7 @@ def required_cells(tier):
         "matsubara_symmetry": 5, "matsubara:guard-active": 3,
         "cc_cells_vs_analytic": 20, "cc:exp": 2, "cc:modes": 2,
         "cc:tri:offset": 2, "cc:straddle": 2, "cc:kink-straddle": 2,
+        "scale:extreme": 3, "scale:moderate": 3, "scale_cells_compared": 50,
     }
     for tc in set(T_CLASSES):
         req["T:" + tc] = 2
@@ -153,6 +154,8 @@ def cases(tier, seed):
            for i in range(n_sd)]
     out += [{"kind": "cc", "seed": seed, "idx": i, "tier": tier}
             for i in range(n_cc)]
+    out += [{"kind": "scale", "seed": seed, "idx": i, "tier": tier}
+            for i in range(12 if tier == "quick" else 80)]
     return out
 
 
@@ -1214,7 +1217,96 @@ def run_cc(case):
     }
 
 
+def run_scale(case):
+    """Unit covariance (metamorphic): measuring frequencies in units
+    s times smaller (cutoff*s, T*s) and times in units s times larger
+    (dt/s, t/s) leaves every 2D integral unchanged (eta is dimensionless) and
+    multiplies C(tau) by s^2. Also with many cells requested from ONE object
+    (values must not depend on which cells were asked before). Extreme scales
+    (SI-like: cutoff 1e12, times 1e-13) only with a hard cutoff and with
+    CustomCorrelations - the infinite-range tail of the other cutoffs is the
+    documented finding inf-tail-quad-glitch."""
+    import oqupy
+    i = case["idx"]
+    rng = gen.rng_for(case["seed"], "c12scale", i)
+    extreme = bool(i % 2)
+    s_fac = float([1e12, 1e-9, 3.3e6][(i // 2) % 3]) if extreme else \
+        float([1e3, 1e-3, 37.0][(i // 2) % 3])
+    use_cc = bool(i % 4 == 3)
+    alpha = float(rng.uniform(0.05, 1.0))
+    zeta = float(rng.choice([1.0, 1.5, 3.0]))
+    wc = float(rng.uniform(1.0, 5.0))
+    temp = [0.0, float(rng.uniform(0.2, 2.0)) * wc][i % 2 if not use_cc else 0]
+    ctype = "hard" if extreme else ["hard", "exponential", "gaussian"][i % 3]
+    dt = float(rng.uniform(0.05, 0.3)) / wc * 3
+    violations, monitors = [], {"scale_cells_compared": 0}
+
+    def make(sf):
+        if use_cc:
+            g, w = 0.7 * wc * sf, 1.3 * wc * sf
+            amp = alpha * (wc * sf) ** 2
+            return oqupy.CustomCorrelations(
+                lambda t, g=g, w=w, amp=amp: amp * np.exp(-(g + 1j * w) * t))
+        return oqupy.PowerLawSD(alpha, zeta, wc * sf, ctype, temp * sf)
+    base, scaled = make(1.0), make(s_fac)
+    cells = [("upper-triangle", 0.0, None)]
+    for k in (1, 2, 3, 5):
+        cells.append(("square", k * dt, None))
+    cells.append(("rectangle", 2 * dt, 2 * dt + 1.6 * dt))
+    cells.append(("rectangle", 3 * dt, 3 * dt + 0.4 * dt))
+    worst = 0.0
+    # ask the scaled object twice in different orders (cache keys!)
+    for order in (cells, list(reversed(cells))):
+        for (shape, t1, t2) in order:
+            kw = dict(shape=shape)
+            a = base.correlation_2d_integral(
+                dt, t1, **(dict(kw, time_2=t2) if t2 is not None else kw))
+            b = scaled.correlation_2d_integral(
+                dt / s_fac, t1 / s_fac,
+                **(dict(kw, time_2=t2 / s_fac) if t2 is not None else kw))
+            monitors["scale_cells_compared"] += 1
+            tolv = 1e-5 * max(abs(a), 1e-3 * alpha)
+            dev = abs(a - b)
+            worst = max(worst, dev / tolv)
+            if dev > tolv:
+                violations.append({
+                    "what": f"unit scaling by s={s_fac:g}: {shape} cell at "
+                            f"t1={t1:.4g} (dt={dt:.4g}) is {b:.8g} in the "
+                            f"scaled units but {a:.8g} in the original "
+                            f"units ({'CustomCorrelations' if use_cc else ctype})",
+                    "mechanism": "unit-scaling", "detail": {
+                        "s": s_fac, "shape": shape, "t1": t1}})
+                break
+        if violations:
+            break
+    if not use_cc and not violations:
+        for tau in (0.3 / wc, 1.7 / wc):
+            a = base.correlation(tau) * s_fac ** 2
+            b = scaled.correlation(tau / s_fac)
+            # scipy's default epsabs (1.49e-8 per quad call, absolute in
+            # the scaled units) is part of what the library requests
+            if abs(a - b) > 1e-5 * abs(a) + 1e-9 * alpha * (wc * s_fac) ** 2 \
+                    + 8 * 1.49e-8:
+                violations.append({
+                    "what": f"unit scaling by s={s_fac:g}: C(tau) does not "
+                            f"scale as s^2 ({b:.8g} vs {a:.8g})",
+                    "mechanism": "unit-scaling", "detail": {"s": s_fac}})
+    cells_cov = ["scale:" + ("extreme" if extreme else "moderate"),
+                 "scale:" + ("cc" if use_cc else ctype)]
+    return {"violations": violations[:3], "cells": cells_cov,
+            "monitors": monitors, "nontrivial": True,
+            "signature": f"scale-{s_fac:g}-{use_cc}-{ctype}-{temp > 0}",
+            "maxratio": worst, "obs": {},
+            "sample": gen.nice({"kind": "scale", "s": s_fac, "alpha": alpha,
+                                "zeta": zeta, "cutoff": wc, "T": temp,
+                                "cutoff_type": ctype,
+                                "custom_correlations": use_cc,
+                                "worst_ratio": worst})}
+
+
 def run_case(case):
     if case["kind"] == "sd":
         return run_sd(case)
+    if case["kind"] == "scale":
+        return run_scale(case)
     return run_cc(case)
